@@ -96,12 +96,15 @@ def execute(scn, order_seed=0):
     tokens = {p: make_content(kinds[p], p) for p in scn["inst"]}
 
     def make_digest(p):
-        @constraints(before=scn["before"][p], after=scn["after"][p], required=scn["req"][p])
         def digest(content):
             events.append({"e": "Digest", "p": p, "exact": bool(content is tokens[p] or (type(content) is type(tokens[p]) and content == tokens[p]))})
             return None if scn["res"][p] == "none" else ("result", p)
 
-        return digest
+        # a plugin that has nothing to declare is usually a plain function without the
+        # decorator: both spellings of "no constraints" must mean the same
+        if not scn["before"][p] and not scn["after"][p] and not scn["req"][p] and crnd.random() < 0.7:
+            return digest
+        return constraints(before=scn["before"][p], after=scn["after"][p], required=scn["req"][p])(digest)
 
     eps = [FakeEntryPoint(p, make_digest(p)) for p in scn["inst"]]
     random.Random(order_seed).shuffle(eps)
